@@ -295,7 +295,10 @@ Section WStream.
         match ws_hk s with
         | None => raise EAttribute
         | Some hk =>
-            if negb (hk_accepted hk) then wset_closed ;; ws_send_error_response 400     (* closed first: the application may try to accept meanwhile *)
+            if negb (hk_accepted hk) then
+              (* closed first: the application may try to accept meanwhile; the later StreamClosed is then ignored, so the
+                 application, if one was started, is told here *)
+              wset_closed ;; ws_send_error_response 400 ;; when (ws_has_app s) (wapp_put (RWsDisconnect 1006%Z))
             else
               emit (OLib [VS "ws.receive_data"]) ;;
               ws_handle_events evs
